@@ -122,15 +122,21 @@ SPEC = {
     "model_targets": ["model/Parser.vo", "model/TreeEq.vo"],
     "module": "C01",
     "theorems": ["C01_any_tables", "C01_partial", "C01_refuted"],
+    "more": [{"module": "C01r", "target": "props/C01r.vo",
+              "theorems": ["C01_respelled_any_tables", "C01_respelled_partial", "C01_respell_partial",
+                           "C01_respell_unguarded_refuted"]}],
     "correspond": correspond,
-    "statement": "for ANY LR tables: if parsing s returns a tree and no semantic action dropped text or "
-                 "re-spelled a token (ghost events of the model), print(tree) = s exactly; the full statement "
-                 "(with numeral re-spelling) is refuted by 'foo :bar' (F1)",
+    "statement": "C01_respelled_partial: the property's statement itself (print(tree) renders the input's tokens with "
+                 "numerals after ~ or ^ possibly re-spelled as numerically equal plain decimals that lex back the same) "
+                 "for every accepted input on which no text is dropped (only F1 drops text); for ANY LR tables: no ghost "
+                 "event => print(tree) = s exactly; the unguarded statement is refuted by 'foo :bar' (F1)",
     "level_text": "Coq proof, for any action/goto tables, that the value stack followed by the pending tokens "
                   "always spells the input and every semantic action keeps the text of its parts, hence "
-                  "print(tree) = input whenever the model's ghost log is empty (PARTIAL: inputs whose numerals "
-                  "are re-spelled are covered by correspondence and the Python oracle only; F1 refutes the full "
-                  "statement). Lexer, actions and driver are hand-written models tied to /repo by the generated "
+                  "print(tree) = input whenever the model's ghost log is empty; and (C01r) the token-level statement of "
+                  "the property with numeral re-spelling, proved on the generated tables under the single guard "
+                  "'no text dropped' via a decimal print/parse round-trip lemma and a strengthened LR stack-typing "
+                  "invariant (PARTIAL only in that F1 refutes the unguarded statement). "
+                  "Lexer, actions and driver are hand-written models tied to /repo by the generated "
                   "LALR tables, token-regex source checks and differential correspondence on every run.",
     "trusted_base": [
         "Coq 8.16.1 kernel (vm_compute for witnesses and correspondence; no native_compute); no axioms",
